@@ -74,11 +74,26 @@ def run(tier="quick", seed=0):
     def fail(clause, inp, obs):
         failures.append({"name": "jsonrpclib.jsonrpc.ServerProxy/bounded[%s]" % clause, "input": inp, "observed": obs})
 
-    for server_cls in (SimpleJSONRPCServer, PooledJSONRPCServer):
-        for version in (2.0, 1.0):
+    import os
+    import shutil
+    import socket
+    import tempfile
+    sockdir = tempfile.mkdtemp(prefix="verif_c01_")          # Unix-socket listeners live here; removed at the end
+    combos = [(SimpleJSONRPCServer, 2.0, "tcp"), (SimpleJSONRPCServer, 1.0, "tcp"), (PooledJSONRPCServer, 2.0, "tcp"),
+              (PooledJSONRPCServer, 1.0, "tcp")]
+    if hasattr(socket, "AF_UNIX"):
+        combos += [(SimpleJSONRPCServer, 2.0, "unix"), (PooledJSONRPCServer, 1.0, "unix")]
+    for server_cls, version, family in combos:
+        if True:
             log = []
             cfg = C.Config(version=version)
-            srv = server_cls(("127.0.0.1", 0), logRequests=False, config=cfg)
+            if family == "unix":
+                sockpath = os.path.join(sockdir, "s%d.sock" % n)
+                srv = server_cls(sockpath, logRequests=False, config=cfg, address_family=socket.AF_UNIX)
+                url = "unix+http://./%s" % sockpath
+            else:
+                srv = server_cls(("127.0.0.1", 0), logRequests=False, config=cfg)
+                url = "http://127.0.0.1:%d" % srv.server_address[1]
             svc = Service(log)
             srv.register_function(svc.echo, "echo")
             srv.register_function(svc.echo, "ns.écho")
@@ -88,15 +103,15 @@ def run(tier="quick", seed=0):
             th.start()
             try:
                 hist = H.History()
-                proxy = jsonrpclib.ServerProxy("http://127.0.0.1:%d" % srv.server_address[1], config=cfg, history=hist)
-                step = 1 if (server_cls is SimpleJSONRPCServer and version == 2.0) else 3
+                proxy = jsonrpclib.ServerProxy(url, config=cfg, history=hist)
+                step = 1 if (server_cls is SimpleJSONRPCServer and version == 2.0 and family == "tcp") else 3
                 for idx, v in enumerate(vals[::step]):
                     for style in ("positional", "keyword", "dotted"):
                         n += 1
                         del log[:]
                         h0 = (len(hist.requests), len(hist.responses))
                         desc = {"value": repr(v)[:80] + ("...(%d chars)" % len(v) if isinstance(v, str) and len(v) > 80 else ""),
-                                "style": style, "version": version, "server": server_cls.__name__}
+                                "style": style, "version": version, "server": server_cls.__name__, "transport": family}
                         try:
                             if style == "positional":
                                 got, want_args, want_kw, want = proxy.echo(v), (norm(v),), {}, norm(v)
@@ -196,7 +211,8 @@ def run(tier="quick", seed=0):
                 srv.shutdown()
                 srv.server_close()
                 th.join(5)
-    return {"kind": "real ServerProxy <-> real servers over loopback TCP on a value corpus (bounded)",
+    shutil.rmtree(sockdir, ignore_errors=True)
+    return {"kind": "real ServerProxy <-> real plain and pooled servers over loopback TCP and Unix sockets on a value corpus (bounded)",
             "bound": "%d values x {positional, keyword, dotted} on SimpleJSONRPCServer/2.0, every third value on the other three "
                      "server/version pairs; batches of 1, 2, 5" % len(vals),
             "evaluations": n, "failures": failures[:60], "failures_total": len(failures)}
